@@ -37,6 +37,8 @@ func c14Jobs(tier string, seed int64) []string {
 	// everything), integer equality and order, byte-wise string equality and order, bool equality;
 	// also as list elements and map values
 	jobs = append(jobs, "byvalue:F", "byvalue:I", "byvalue:S", "byvalue:B")
+	// comparing is an observation: the same comparison gives the same answer again and leaves both operands as they were
+	jobs = append(jobs, "repeat:L")
 	// transitivity on all eight Int/Float patterns and on strings
 	for _, a := range []byte{'I', 'F'} {
 		for _, b := range []byte{'I', 'F'} {
@@ -221,6 +223,23 @@ func c14Run(job string) {
 		sym.Assert(r3.ok(), "list-of-map-eq-defined")
 		if x, ok := boolOf(r3); ok {
 			sym.Assert(sym.Iff(x, a0.(value.Int) == b0.(value.Int)), "list-of-map-eq")
+		}
+	case "repeat":
+		x0, x1, y0, y1, y2 := mk(fg, 'I', "x0"), mk(fg, 'I', "x1"), mk(fg, 'I', "y0"), mk(fg, 'I', "y1"), mk(fg, 'I', "y2")
+		a := value.NewList(x0, x1)
+		b := value.NewList(y0, y1, y2)
+		for _, form := range []string{"a ~ b", "b ~ a", "a = b", "a.top(1) ~ b", "[a[1]] ~ a", "a ~ a", "a != b", "a[0] ~ b"} {
+			f := mustGen(fg, form, "a", "b")
+			r1 := eval(f, a, b)
+			r2 := eval(f, a, b)
+			sym.Assert(r1.ok() == r2.ok(), "repeat-defined:"+form)
+			if v1, ok1 := boolOf(r1); ok1 {
+				if v2, ok2 := boolOf(r2); ok2 {
+					sym.Assert(sym.Iff(v1, v2), "same-answer-again:"+form)
+				}
+			}
+			sym.Assert(valEq(a, value.NewList(x0, x1)), "left-operand-unchanged:"+form)
+			sym.Assert(valEq(b, value.NewList(y0, y1, y2)), "right-operand-unchanged:"+form)
 		}
 	case "byvalue":
 		a, b := mk(fg, kinds[0], "a"), mk(fg, kinds[0], "b")
